@@ -914,6 +914,7 @@ func c13perms(n int) [][]int {
 }
 
 func c13gen(c *h.Ctx, yield func(*h.Case)) {
+	b5boundSearch(c)
 	r := c.Rng
 	edKey := func() string {
 		b := make([]byte, 32)
